@@ -147,7 +147,16 @@ def historyFlags (tr : List Tr) : List String :=
       | .closeLevel _ => (st.1.dropLast, st.2)
       | .enq q s => if s.cls == .inputReady && st.1.getLast? != some q then (st.1, true) else st
       | _ => st) ([0], false)).2
-  (if k1a || k1b then ["K1"] else []) ++ (if k2 then ["K2"] else []) ++ (if fq then ["forceQuit"] else []) ++ (if held then ["K5"] else [])
+  -- K6: a modal entry was popped by close_screen and an ordinary exception (RenderUnexpectedError, a failing closed()) prevented its close_loop
+  let k6 := (tr.foldl (fun (st : List Entry × Bool × Bool) t =>
+      match t with
+      | .stackOp w stack =>
+        let popped := if w = "close" then st.1.getLast? else none
+        (stack, (match popped with | some e => e.modal | none => st.2.1), st.2.2)
+      | .closeLevel _ => (st.1, false, st.2.2)
+      | .enq _ s => if s.cls == .exception && st.2.1 then (st.1, st.2.1, true) else st
+      | _ => st) ([], false, false)).2.2
+  (if k6 then ["K6"] else []) ++ (if k1a || k1b then ["K1"] else []) ++ (if k2 then ["K2"] else []) ++ (if fq then ["forceQuit"] else []) ++ (if held then ["K5"] else [])
 
 /-- C20: the `Calm` clauses evaluated on the MainLoop machine's trace (oldest first); the result lists the violated clauses -/
 structure CalmSt where
